@@ -349,13 +349,20 @@ def cbmc_counterexample(mdir, harness, keys, timeout=2400, mem_gb=40):
                 continue
             fn = st.get("sourceLocation", {}).get("function", "")
             lhs = st.get("lhs", "")
-            if fn.startswith("kani::any_raw_array") and lhs.startswith("goto_symex$$return_value") and arr_start is not None:
-                for el in st.get("value", {}).get("elements", []):
-                    b = (el.get("value") or {}).get("binary")
-                    idx = el.get("index")
-                    if b is not None and idx is not None and idx < arr_n:
-                        n = int(b, 2)
-                        vals[arr_start + idx] = [(n >> (8 * i)) & 0xff for i in range(arr_esz)]
+            if fn.startswith("kani::any_raw_array") and arr_start is not None:
+                # the array is assigned element by element: `var_0[i]` / `...return_value...[i]`
+                mi = re.search(r"\[(\d+)[a-z]*\]$", lhs)
+                b = st.get("value", {}).get("binary")
+                if mi and b is not None and int(mi.group(1)) < arr_n:
+                    n = int(b, 2)
+                    vals[arr_start + int(mi.group(1))] = [(n >> (8 * i)) & 0xff for i in range(arr_esz)]
+                else:
+                    for el in st.get("value", {}).get("elements", []) or []:
+                        b2 = (el.get("value") or {}).get("binary")
+                        idx = el.get("index")
+                        if b2 is not None and idx is not None and idx < arr_n:
+                            n = int(b2, 2)
+                            vals[arr_start + idx] = [(n >> (8 * i)) & 0xff for i in range(arr_esz)]
                 continue
             if not fn.startswith("kani::any_raw_internal") or not lhs.startswith("goto_symex$$return_value"):
                 continue
